@@ -40,6 +40,54 @@ def first_diff(a, b):
     return None
 
 
+def first_diff_tol(a, b, tol):
+    """like first_diff, for relabellings that change the ORDER of identifiers (the order of floating-point summation may change with it):
+    numbers within `tol`, counts and types exact, determinants as multisets per partner position"""
+    if a.keys() != b.keys():
+        return f"conformations {sorted(a)} vs {sorted(b)}"
+    names = ("type", "residue_type", "pka", "model_pka", "energy_volume", "num_volume", "energy_local", "buried", "titratable", "determinants")
+    for c in a:
+        if len(a[c]) != len(b[c]):
+            return f"{c}: {len(a[c])} vs {len(b[c])} groups"
+        for i, (x, y) in enumerate(zip(a[c], b[c])):
+            for j in range(9):
+                ok = (abs(x[j] - y[j]) <= tol) if isinstance(x[j], float) and isinstance(y[j], float) else x[j] == y[j]
+                if not ok:
+                    return f"{c} group #{i} ({x[1]}): {names[j]} {x[j]} vs {y[j]}"
+            for k in KINDS:
+                dx, dy = sorted(x[9][k], key=lambda t: (t[0] if t[0] is not None else -2, t[1])), sorted(y[9][k], key=lambda t: (t[0] if t[0] is not None else -2, t[1]))
+                if len(dx) != len(dy) or any(p[0] != q[0] or abs(p[1] - q[1]) > tol for p, q in zip(dx, dy)):
+                    return f"{c} group #{i} ({x[1]}): {k} determinants {dx[:3]} vs {dy[:3]}"
+    return None
+
+
+def order_sensitive_pair():
+    """two residues in two chains whose side-chain interaction is evaluated asymmetrically (both group types are 'angular dependent': only the
+    hydrogen of the group visited second counts): a histidine N-H pointing at the amide oxygen of an asparagine.  Which one is visited first must
+    follow the records, never the identifiers."""
+    import math
+    from props import c04
+    al = [l for l in structures.read("1HPX.pdb").splitlines() if l[:6] == "ATOM  " and l[16] in " A"]
+    his = [l for l in al if l[17:20] == "HIS" and l[21] == "A" and int(l[22:26]) == 69]
+    asn = next([m for m in al if m[21] == l[21] and m[22:27] == l[22:27]] for l in al if l[17:20] == "ASN" and l[12:16].strip() == "OD1")
+    at = {l[12:16].strip(): [float(v) for v in structures.get_xyz(l)] for l in his}
+    c = [sum(at[k][i] for k in ("CG", "ND1", "CD2", "CE1", "NE2")) / 5 for i in range(3)]
+    u = [at["NE2"][i] - c[i] for i in range(3)]
+    n = math.sqrt(sum(x * x for x in u))
+    u = [x / n for x in u]
+    target = [at["NE2"][i] + 2.85 * u[i] for i in range(3)]
+    an = {l[12:16].strip(): [float(v) for v in structures.get_xyz(l)] for l in asn}
+    R = c04.align([an["OD1"][i] - an["CG"][i] for i in range(3)], [-x for x in u])       # CG->OD1 points back at the histidine
+    out = [structures.set_chain(l, "A") for l in his] + ["TER   "]
+    for l in asn:
+        p_ = [float(v) for v in structures.get_xyz(l)]
+        rel = [p_[i] - an["OD1"][i] for i in range(3)]
+        q = [sum(R[i][j] * rel[j] for j in range(3)) + target[i] for i in range(3)]
+        from decimal import Decimal
+        out.append(structures.set_chain(structures.set_xyz(l, *(Decimal(str(round(v, 3))) for v in q)), "C"))
+    return "\n".join(out + ["TER   ", "END"]) + "\n"
+
+
 def relabel(text, chain_map=None, shift=None):
     def f(l):
         c = l[21]
@@ -119,7 +167,8 @@ def run(chk: common.Check):
     rng = chk.rng
     proved = chk.prove()
     found = []
-    names = ["1HPX.pdb", "3SGB-subset.pdb", "conf-alt-AB.pdb + residues of 1HPX chain B"] + (["3SGB.pdb", "1FTJ-Chain-A.pdb", "4DFR.pdb"] if chk.thorough else [])
+    names = ["1HPX.pdb", "3SGB-subset.pdb", "conf-alt-AB.pdb + residues of 1HPX chain B", "HIS 69 of 1HPX donating to an ASN amide oxygen in another chain",
+             "1HPX.pdb with the inhibitor written without chain identifier and numbered 25"] + (["3SGB.pdb", "1FTJ-Chain-A.pdb", "4DFR.pdb"] if chk.thorough else [])
     edis = []
     for ni, n in enumerate(names):
         if n.startswith("conf-alt-AB.pdb +"):
@@ -129,6 +178,12 @@ def run(chk: common.Check):
             ca, cf = structures.bbox("\n".join(alt)), structures.bbox("\n".join(frag))
             sh = tuple(round(ca[i][1] - cf[i][0] + (6.0 if i == 0 else 0.0), 3) for i in range(3))
             text = "\n".join(alt) + "\nTER   \n" + relabel(structures.move("\n".join(frag) + "\n", None, sh), None, {"B": 100}) + "TER   \nEND\n"
+        elif n.startswith("HIS 69 of 1HPX"):
+            text = order_sensitive_pair()
+        elif n.startswith("1HPX.pdb with the inhibitor written without"):
+            # a hetero group without chain identifier whose residue number also occurs in the chains before it (ASP 25 A / B are its neighbours)
+            text = "\n".join((structures.set_chain(structures.set_resnum(l, 25, " "), " ") if (l[:6] == "HETATM" and l[17:20] == "KNI") else l)
+                             for l in structures.read("1HPX.pdb").splitlines() if l[17:20] != "HOH") + "\n"
         else:
             text = "\n".join(l for l in structures.read(n).splitlines() if l[17:20] != "HOH") + "\n"
         mol0, _ = structures.run(text)
@@ -137,7 +192,7 @@ def run(chk: common.Check):
         n0 = numbers(mol0)
         chains = sorted({l[21] for l in structures.atom_lines(text)}, key=lambda c: c.strip() or "_")   # a blank chain id is read as '_' 
         variants = []
-        up = {c: chr(ord(c) + 2) for c in chains}                      # monotone renaming
+        up = {c: (chr(ord(c) + 2) if c.strip() else c) for c in chains}    # monotone renaming (a blank identifier is read as '_' and stays)
         variants.append(("chains renamed " + str(up), lambda: relabel(text, up), False))
         low = dict(zip(chains, "abcdefgh"))
         variants.append(("chains renamed to lower case", lambda: relabel(text, low), False))
@@ -159,8 +214,9 @@ def run(chk: common.Check):
         if len(chains) >= 2:
             a, b = chains[0], chains[1]
             # chain identifiers that differ only in case are different chains (order preserving: 'A' < 'a')
-            variants.append(("chains renamed to A / a (identifiers differing only in case)", lambda: relabel(text, {a: "A", b: "a"}), False))
-            variants.append(("chains renamed to B / b", lambda: relabel(text, {a: "B", b: "b"}), False))
+            if len(chains) == 2:     # (with more chains the renaming of two of them need not preserve the order of all)
+                variants.append(("chains renamed to A / a (identifiers differing only in case)", lambda: relabel(text, {a: "A", b: "a"}), False))
+                variants.append(("chains renamed to B / b", lambda: relabel(text, {a: "B", b: "b"}), False))
             # a file without TER records and without terminal oxygens: chain starts are decided by the file layout only, never by the numbers
             bare = "\n".join(l for l in text.splitlines() if l[:3] != "TER" and not (structures.is_atom(l) and l[12:16].strip() in ("OXT", "O''"))) + "\n"
             try:
@@ -179,6 +235,24 @@ def run(chk: common.Check):
                                       {"case": n, "relabelling": what_b, "first_difference": d, "pdb_text": tb if len(tb) < 250000 else None}))
             except Exception as ex:   # noqa: BLE001
                 found.append(("crash-after-relabelling", f"{n} without TER / OXT: {type(ex).__name__}: {ex}", {"case": n}))
+        # identifiers whose ORDER differs from the order of the records: numbers descending along each chain; the first chain renamed to a
+        # letter after the others.  Only rounding-level changes are allowed (the order of a summation may follow the identifiers).
+        if not has_twins(text):
+            top = max(max(v) for v in nums.values()) + 1
+            rev = "\n".join((structures.set_resnum(l, top - int(l[22:26]), l[26]) if structures.is_atom(l) else ("TER   " if l[:3] == "TER" else l)) for l in text.splitlines()) + "\n"
+            ordered = [("numbers descending along every chain", rev)]
+            if len(chains) >= 2 and all(c.strip() for c in chains):
+                ordered.append((f"first chain renamed to 'z' (after the others)", relabel(text, {chains[0]: "z"})))
+            for what_o, t_o in ordered:
+                try:
+                    mol_o, _ = structures.run(t_o)
+                    chk.count(1, key=("order-changing", n, what_o))
+                    d = first_diff_tol(n0, numbers(mol_o), 1e-9)
+                    if d:
+                        found.append(("labels-influence-numbers:order-of-identifiers", f"{n} {what_o}: {d}", {"case": n, "relabelling": what_o, "first_difference": d,
+                                                                                                           "pdb_text": t_o if len(t_o) < 250000 else None}))
+                except Exception as ex:   # noqa: BLE001
+                    found.append(("crash-after-relabelling", f"{n} {what_o}: {type(ex).__name__}: {ex}", {"case": n, "relabelling": what_o}))
         tw = has_twins(text)
         variants.append(("renumbered in file order" + (" (structure has insertion-code twins)" if tw else ""), lambda: renumber_file_order(text), tw))
         for what, mk, twins in variants:
@@ -218,6 +292,8 @@ def run(chk: common.Check):
             except ValueError:
                 pass
         # twins created on purpose: two residues sharing chain and number, differing in insertion code, are distinct residues
+        if n.startswith("HIS 69 of 1HPX"):
+            continue          # single-residue chains: no neighbouring residues to turn into twins
         t3, desc = make_twins(text, rng)
         mol3, _ = structures.run(t3)
         chk.count(1, key=("twins", n, desc))
